@@ -28,10 +28,10 @@ def sk_allows(case, an):
 def base_unwind(case, facts, n, extra=0):
     """Global unwind bound: every loop with a symbolic trip count in the
     templates/oracles/search loops runs at most n+1 times; loops with constant
-    trip counts (pattern list, pattern bytes, match rows in the rebuild hook)
-    need their own count + 1."""
+    trip counts (pattern list, pattern bytes) need their own count + 1. The
+    rebuild hooks are loop free."""
     f = facts[case.name]
-    return max(n + 2, len(case.pats) + 1, case.maxlen + 1, f["dfa_match_rows"] + 1) + extra
+    return max(n + 2, len(case.pats) + 1, case.maxlen + 1) + extra
 
 
 def unsat_ok_find(case, an=0):
@@ -148,8 +148,8 @@ def h_ismatch(prop, case, facts, kind="dfa", n=6, an=EITHER, timeout=900):
     unsat = set()
     if any(len(x) == 0 for x in case.pats):
         unsat |= {"no occurrence exists"}
-    if case.mk == "std" or any(len(x) == 0 for x in case.pats):
-        unsat |= {"earliest stops before the normal match ends"}
+    # optional witness: whether earliest and normal mode can differ depends on the pattern list
+    unsat |= {"earliest stops before the normal match ends"}
     return Harness(name, case, body, base_unwind(case, facts, n), schema, meta, timeout=timeout,
                    functions=F_SEARCH + F_KIND[kind], unsat_ok=unsat)
 
@@ -250,33 +250,34 @@ F_AC = ["AhoCorasick::{try_find,try_find_iter,try_find_overlapping,try_find_over
 SKN = {"both": 0, "un": 1, "an": 2}
 
 
+API_NAMES = {0: "find", 1: "find_iter", 2: "find_overlapping", 3: "find_overlapping_iter", 6: "is_match"}
+
+
 def ac_ctor(case, kind):
     return "aho_corasick::verif::ac::from_%s(<%s as Case>::%s(), aho_corasick::verif::ac::sk_from_u8(%d))" % (
         kind, case.mod, kind, SKN[case.sk])
 
 
-def h_reject_fallible(prop, case, facts, kind, n=2, timeout=900):
-    name = "h_rejf_%s_%s" % (case.name, kind)
-    body = "    let ac = %s;\n    t::reject_fallible::<%s, %d>(&ac);\n    core::mem::forget(ac);" % (ac_ctor(case, kind), case.mod, n)
+def h_reject_fallible(prop, case, facts, kind, api, n=1, timeout=900):
+    name = "h_rejf_%s_%s_%s" % (case.name, kind, API_NAMES[api])
+    body = "    let ac = %s;\n    t::reject_fallible::<%s, %d, %d>(&ac);\n    core::mem::forget(ac);" % (ac_ctor(case, kind), case.mod, n, api)
     schema = [("hay", ("bytes", n)), ("anchored", "bool")]
-    meta = dict(template="reject_fallible", replay_template="reject", kind=kind, N=n,
-                symbolic=["haystack bytes", "requested anchoring"], apis=["try_find", "try_find_iter", "try_find_overlapping", "try_find_overlapping_iter"])
-    return Harness(name, case, body, max(base_unwind(case, facts, n), 8), schema, meta, timeout=timeout,
+    meta = dict(template="reject_fallible", replay_template="reject", kind=kind, N=n, api="try_" + API_NAMES[api],
+                symbolic=["haystack bytes", "requested anchoring"], fixed_inputs={"api": API_NAMES[api]})
+    return Harness(name, case, body, max(base_unwind(case, facts, n), 6), schema, meta, timeout=timeout, mem_gb=16,
                    functions=F_AC + F_SEARCH + F_ITER + F_OV + F_KIND[kind])
 
 
-def h_reject_sr(prop, case, facts, kind, n=2, timeout=900):
-    name = "h_rejsr_%s_%s" % (case.name, kind)
-    body = "    let ac = %s;\n    t::reject_stream_replace::<%s, %d>(&ac);\n    core::mem::forget(ac);" % (ac_ctor(case, kind), case.mod, n)
-    schema = [("hay", ("bytes", n))]
-    meta = dict(template="reject_stream_replace", replay_template="reject_sr", kind=kind, N=n,
-                symbolic=["stream bytes"], apis=["try_stream_find_iter", "try_replace_all_with_bytes"])
-    return Harness(name, case, body, max(base_unwind(case, facts, n), case.maxlen + n + 4, 8), schema, meta, timeout=timeout,
-                   functions=["AhoCorasick::{try_stream_find_iter,try_replace_all_with_bytes}", "StreamChunkIter::new", "Buffer::new"] + F_KIND[kind],
+def h_reject_sr(prop, case, facts, kind, which, timeout=900):
+    name = "h_rej%s_%s_%s" % (which, case.name, kind)
+    body = "    let ac = %s;\n    t::reject_%s::<%s>(&ac);\n    core::mem::forget(ac);" % (ac_ctor(case, kind), which, case.mod)
+    schema = [("hay", ("bytes", 1))] if which == "stream" else []
+    meta = dict(template="reject_" + which, replay_template="reject_" + which, kind=kind,
+                api="try_stream_find_iter" if which == "stream" else "try_replace_all_with_bytes")
+    return Harness(name, case, body, max(base_unwind(case, facts, 1), 5), schema, meta, timeout=timeout, mem_gb=16,
+                   functions=["AhoCorasick::try_stream_find_iter", "StreamChunkIter::new", "Buffer::new"] if which == "stream"
+                   else ["AhoCorasick::try_replace_all_with_bytes", "Automaton::try_replace_all_with_bytes"] + F_KIND[kind],
                    covers_required=False)
-
-
-API_NAMES = {0: "find", 1: "find_iter", 2: "find_overlapping", 3: "find_overlapping_iter", 6: "is_match"}
 
 
 def reject_possible(case, api, rej):
@@ -292,7 +293,7 @@ def reject_possible(case, api, rej):
     return out
 
 
-def h_reject_infallible(prop, case, facts, kind, api, rej, n=2, timeout=900):
+def h_reject_infallible(prop, case, facts, kind, api, rej, n=1, timeout=900):
     name = "h_reji_%s_%s_%s_%s" % (case.name, kind, API_NAMES[api], "rej" if rej else "acc")
     body = "    let ac = %s;\n    t::reject_infallible::<%s, %d, %d, %s>(&ac);\n    core::mem::forget(ac);" % (
         ac_ctor(case, kind), case.mod, n, api, "true" if rej else "false")
@@ -300,7 +301,7 @@ def h_reject_infallible(prop, case, facts, kind, api, rej, n=2, timeout=900):
     meta = dict(template="reject_infallible", replay_template="reject_inf", kind=kind, N=n, api=API_NAMES[api],
                 half="rejected configurations: must panic, never return" if rej else "accepted configurations: must not panic",
                 symbolic=["haystack bytes", "requested anchoring"], fixed_inputs={"api": API_NAMES[api], "expect_panic": int(rej)})
-    return Harness(name, case, body, max(base_unwind(case, facts, n), 8), schema, meta, timeout=timeout,
+    return Harness(name, case, body, max(base_unwind(case, facts, n), 6), schema, meta, timeout=timeout, mem_gb=16,
                    functions=F_AC + ["AhoCorasick::" + API_NAMES[api]] + F_KIND[kind],
                    should_panic=rej, must_unsat={"returned normally"} if rej else (), covers_required=not rej)
 
@@ -481,6 +482,28 @@ def h_fail_depth(prop, case, facts, timeout=600):
                    functions=["noncontiguous::State::{fail,depth} of every state"], covers_required=False)
 
 
+
+def h_ac_ismatch(prop, case, facts, kind="dfa", n=4, timeout=1200):
+    name = "h_acismatch_%s_%s_n%d" % (case.name, kind, n)
+    body = "    let ac = %s;\n    t::ac_ismatch::<%s, %d>(&ac);\n    core::mem::forget(ac);" % (ac_ctor(case, kind), case.mod, n)
+    schema = [("hay", ("bytes", n)), ("s", "usize"), ("e", "usize"), ("anchored", "bool")]
+    meta = dict(template="ac_ismatch", replay_template="ac_ismatch", kind=kind, N=n, symbolic=["haystack bytes", "span", "anchored flag"])
+    unsat = {"is_match is false"} if any(len(x) == 0 for x in case.pats) and case.sk != "both" else set()
+    if any(len(x) == 0 for x in case.pats):
+        unsat.add("is_match is false")
+    return Harness(name, case, body, max(base_unwind(case, facts, n), 8), schema, meta, timeout=timeout,
+                   functions=["AhoCorasick::{is_match,find,try_find}"] + F_AC + F_SEARCH + F_KIND[kind], unsat_ok=unsat)
+
+
+def h_ac_iter(prop, case, facts, kind="dfa", n=4, timeout=1500):
+    name = "h_aciter_%s_%s_n%d" % (case.name, kind, n)
+    body = "    let ac = %s;\n    t::ac_iter::<%s, %d>(&ac);\n    core::mem::forget(ac);" % (ac_ctor(case, kind), case.mod, n)
+    schema = [("hay", ("bytes", n)), ("s", "usize"), ("e", "usize")]
+    meta = dict(template="ac_iter", replay_template="iter2", kind=kind, N=n, symbolic=["haystack bytes", "span"], fixed_inputs={"anchored": 0})
+    return Harness(name, case, body, max(base_unwind(case, facts, n), 8), schema, meta, timeout=timeout,
+                   functions=["AhoCorasick::{find_iter,find_overlapping}"] + F_AC + F_SEARCH + F_ITER + F_OV + F_KIND[kind])
+
+
 # --------------------------------------------------------------------------
 # catalogue
 
@@ -494,6 +517,11 @@ def seeded_cases(prefix, seed, k, mk, **kw):
     rng = random.Random(seed * 7919 + zlib.crc32(prefix.encode()) % 1000)
     out = []
     for i in range(k):
+        # per-case permutation of the core letters, so that builder steps that
+        # depend on byte order see every relative order
+        core = ALPHABET[:3][:]
+        rng.shuffle(core)
+        alpha = core + ALPHABET[3:]
         p = rng.randint(1, 4)
         pats = []
         for _ in range(p):
@@ -508,7 +536,7 @@ def seeded_cases(prefix, seed, k, mk, **kw):
                 pat = b""
             else:
                 ln = rng.randint(1, 4)
-                pat = b"".join(rng.choice(ALPHABET[:3] if rng.random() < 0.8 else ALPHABET) for _ in range(ln))
+                pat = b"".join((core[min(int(rng.random() ** 2 * 3), 2)] if rng.random() < 0.8 else rng.choice(alpha)) for _ in range(ln))
             pats.append(pat)
         out.append(Case("%s_s%d_%d" % (prefix, seed, i), pats, mk=mk, **kw))
     return out
@@ -530,6 +558,12 @@ def lm_core(mk):
         Case(p + "_nest", ["aaa", "aa", "a"], mk=mk),
         Case(p + "_akb", ["aab", "ab", "b", "aaa"], mk=mk),
         Case(p + "_infix", ["abcd", "bc", "c", "d"], mk=mk),
+        # two-step failure chain through a state of a subtree that sorts before
+        # the long pattern's first byte (order of the failure-link traversal)
+        Case(p + "_chain2", ["cabx", "abq", "bd"], mk=mk),
+        Case(p + "_revchain", ["dcba", "cba", "ba", "a"], mk=mk),
+        # 0xFF / 0x00 as pattern bytes (last/first byte class)
+        Case(p + "_hi", [b"ab", b"\xff", b"\x00b"], mk=mk),
     ]
 
 
@@ -544,6 +578,9 @@ def std_core():
         Case(p + "_empty_last", ["abc", ""], mk="std"),
         Case(p + "_shuffle", ["a", "ab", "abc", "b", "bc", "c", "ca", "cab"], mk="std"),
         Case(p + "_cut", ["abcd", "bc", "cd"], mk="std"),
+        Case(p + "_chain2", ["cabx", "abq", "bd"], mk="std"),
+        Case(p + "_revchain", ["dcba", "cba", "ba", "a"], mk="std"),
+        Case(p + "_hi", [b"ab", b"\xff", b"\x00b"], mk="std"),
     ]
 
 
@@ -617,7 +654,7 @@ def schedule(prop, tier, seed):
             hs = []
             for c in cases:
                 hs.append(h_find(prop, c, facts, "dfa", n=6 if quick else 8, an=AN))
-                core = any(k in c.name for k in ("suffix3", "empty", "inherit"))
+                core = any(k in c.name for k in ("suffix3", "empty", "inherit", "dup"))
                 if not quick or core:
                     hs.append(h_iter2(prop, c, facts, "dfa", n=4 if quick else 6, an=AN))
                 if c.mk == "std" and (not quick or core):
@@ -649,16 +686,28 @@ def schedule(prop, tier, seed):
             cases += seeded_cases("c14" + mkk, seed, 1 if quick else 6, mkk)
 
         def mk(facts):
-            return [h_ismatch(prop, c, facts, "dfa", n=6 if quick else 8, an=EITHER) for c in cases]
+            hs = [h_ismatch(prop, c, facts, "dfa", n=6 if quick else 8, an=EITHER) for c in cases]
+            for c in cases:
+                if "empty" in c.name or "basic" in c.name:
+                    if quick and c.mk == "ll":
+                        continue
+                    hs.append(h_ac_ismatch(prop, c, facts, "dfa", n=3 if quick else 4))
+                    if not quick:
+                        hs.append(h_ac_ismatch(prop, c, facts, "cnfa", n=3))
+            return hs
         return cases, mk
     if prop in ("C04", "C16"):
         shapes = [("basic", ["abc", "bc", "c", "ab"]), ("chain", ["abcd", "bcd", "cd", "d"]), ("empty", ["ab", "", "b"]),
                   ("fan5", ["a", "ab", "ac", "ad", "ae", "af"]), ("fan9", ["xa", "xb", "xc", "xd", "xe", "xf", "xg", "xh", "xi"]),
-                  ("one_match", ["ab", "abc"]), ("hi", [b"\x00\xff", b"\xff", b"\x80a"])]
+                  ("one_match", ["ab", "abc"]), ("hi", [b"\x00\xff", b"\xff", b"\x80a"]),
+                  # sparse states (depth >= dense_depth) with 4 / 5 / 9 transitions: chunk boundaries of the contiguous encoding
+                  ("deep4", ["zza", "zzb", "zzc", "zzd"]), ("deep5", ["zza", "zzb", "zzc", "zzd", "zze"]),
+                  ("deep9", ["zza", "zzb", "zzc", "zzd", "zze", "zzf", "zzg", "zzh", "zzi"]),
+                  ("dup", ["ab", "ab", "b"]), ("chain2", ["cabx", "abq", "bd"])]
         cases = []
         for mkk in ("std", "lf"):
             for (nm, pats) in shapes:
-                if quick and mkk == "lf" and nm in ("fan9", "hi", "chain"):
+                if quick and mkk == "lf" and nm in ("fan9", "hi", "chain", "deep5", "deep9", "fan5", "chain2"):
                     continue
                 cases.append(Case("%s%s_%s" % (prop.lower(), mkk, nm), pats, mk=mkk))
         # configuration product on one shape
@@ -692,6 +741,10 @@ def schedule(prop, tier, seed):
                                         timeout=1500 if big else 900)
                     else:
                         hs += h_sim(prop, c, facts, "nc", an, group=2 if big else 6, timeout=1500 if big else 900)
+                if prop == "C04" and c.sk in ("both", "un") and ("basic" in c.name or "empty" in c.name) and (not quick or c.mk != "ll"):
+                    hs.append(h_ac_iter(prop, c, facts, "dfa", n=3 if quick else 4))
+                    if not quick:
+                        hs.append(h_ac_iter(prop, c, facts, "cnfa", n=3))
                 if prop == "C16" and c.sk in ("both", "un") and (not quick or "basic" in c.name or "empty" in c.name or "dd" in c.name):
                     hs.append(h_recipe(prop, c, facts, "dfa", n=6 if quick else 8))
             return hs
@@ -713,18 +766,26 @@ def schedule(prop, tier, seed):
             hs = []
             for c in cases:
                 kinds = ["dfa", "cnfa", "nnfa"]
-                if quick and not (c.mk == "std" or c.sk == "un"):
+                if quick and c.name not in ("c13std_un", "c13lf_an"):
                     kinds = ["dfa"]
+                # the iterator entry points are several times dearer than the
+                # single-search ones (every dyn call explores all three kinds)
+                dear = (not quick) or c.name in ("c13std_un", "c13lf_both", "c13std_an")
                 for kind in kinds:
-                    hs.append(h_reject_fallible(prop, c, facts, kind))
-                    if kind == "dfa" or not quick:
-                        hs.append(h_reject_sr(prop, c, facts, kind))
-                    apis = [6, 0, 1, 2, 3] if (kind == "dfa" or not quick) else [6]
+                    full = kind == "dfa" or not quick
+                    apis = [0, 2] + ([1, 3] if (full and dear) else [])
                     for api in apis:
+                        hs.append(h_reject_fallible(prop, c, facts, kind, api))
+                    if full:
+                        hs.append(h_reject_sr(prop, c, facts, kind, "stream"))
+                        if c.sk == "an":
+                            # accepted configurations run the whole replace driver through the
+                            # dyn dispatch, which exhausts 16 GB (measured); the rejected cells
+                            # return before it and are decided here
+                            hs.append(h_reject_sr(prop, c, facts, kind, "replace"))
+                    for api in ([6, 0, 2] + ([1, 3] if dear else [])) if full else [6]:
                         for rej in (True, False):
                             if reject_possible(c, 0 if api == 6 else api, rej):
-                                if quick and api in (1, 3) and not rej and kind != "dfa":
-                                    continue
                                 hs.append(h_reject_infallible(prop, c, facts, kind, api, rej))
             return hs
         return cases, mk
@@ -741,6 +802,12 @@ def schedule(prop, tier, seed):
                 if quick and mkk == "lf" and nm in ("s2", "r1a", "s2ci"):
                     continue
                 cases.append(Case("c05%s_%s" % (mkk, nm), pats, mk=mkk, ci=ci, pf=True))
+        # packed prefilter (leftmost kinds only): a Candidate::Match is used verbatim
+        pk_cases = [Case("c05lf_pk", ["ab", "cd", "ef"], mk="lf", pf=True),
+                    Case("c05lf_pkshadow", ["ab", "abc", "cd", "ef"], mk="lf", pf=True)]
+        if not quick:
+            pk_cases.append(Case("c05ll_pk", ["ab", "abc", "cd", "ef"], mk="ll", pf=True))
+        cases += pk_cases
         if not quick:
             cases.append(Case("c05ll_r1b", ["abcq", "cdq", "efq", "ghq"], mk="ll", pf=True))
             cases.append(Case("c05ll_s1", ["abc", "ab"], mk="ll", pf=True))
@@ -766,6 +833,14 @@ def schedule(prop, tier, seed):
                     h.stubs = list(STUB_PF)
                     hs.append(h)
             for h in hs:
+                if h.case in pk_cases:
+                    f = facts[h.case.name]
+                    assert f["pf_code"] == 8, "case %s no longer selects the packed prefilter" % h.case.name
+                    h.stubs = [st for st in STUB_PF if "packed" not in st[0]]
+                    h.meta["cut"] = ("the prefilter's packed searcher is rebuilt with its Rabin-Karp half only; every "
+                                     "haystack here is shorter than its Teddy minimum length (%d), where the real "
+                                     "find_in takes exactly that path" % f["pf_packed_min"])
+                    h.functions = h.functions + F_RK + ["prefilter::Packed::find_in"]
                 h.functions = h.functions + ["Prefilter::find_in", "prefilter::{StartBytes*,RareBytes*,Memmem}::find_in",
                                              "Candidate::into_option", "prefilter branches of try_find_fwd_imp/try_find_overlapping_fwd_imp"]
                 h.name = h.name  # names already unique per case
@@ -890,6 +965,44 @@ def schedule(prop, tier, seed):
                 if not c.pf and ("akb" in c.name or not quick):
                     hs.append(h_work(prop, c, facts, "cnfa", n=3, an=EITHER, timeout=1800))
                     hs.append(h_work(prop, c, facts, "nnfa", n=3 if not quick else 2, an=EITHER, timeout=1800))
+            return hs
+        return cases, mk
+    if prop == "C11":
+        fams = [("mixed", ["aB", "b@", "Z["]), ("casedup", ["foo", "FOO", "Fo"]), ("nonascii", [b"\xc1a", "A"]),
+                ("bound", ["@a", "`z", "{Z"]), ("suffix", ["aBc", "bC", "c"])]
+        cases = []
+        for mkk in ("std", "lf", "ll"):
+            for (nm, pats) in fams:
+                if quick and mkk == "ll" and nm not in ("casedup",):
+                    continue
+                if quick and mkk == "lf" and nm in ("bound", "nonascii"):
+                    continue
+                cases.append(Case("c11%s_%s" % (mkk, nm), pats, mk=mkk, ci=True))
+        pf_cases = [Case("c11lf_pf_r2", ["abc", "ab"], mk="lf", ci=True, pf=True),
+                    Case("c11std_pf_s2", ["zq", "zj"], mk="std", ci=True, pf=True),
+                    Case("c11std_pf_r2b", ["aZ", "bZ"], mk="std", ci=True, pf=True)]
+        cases += pf_cases
+        if not quick:
+            for mkk in ("std", "lf", "ll"):
+                cases += seeded_cases("c11" + mkk, seed, 5, mkk, ci=True)
+
+        def mk(facts):
+            hs = []
+            for c in cases:
+                h = h_find(prop, c, facts, "dfa", n=6 if quick else 8, an=EITHER if c not in pf_cases else UN, timeout=1200)
+                if c in pf_cases:
+                    h.stubs = list(STUB_PF)
+                hs.append(h)
+                if c.mk == "std" and (not quick or "casedup" in c.name or "suffix" in c.name):
+                    hs.append(h_ov_step(prop, c, facts, "dfa", n=4 if quick else 5))
+                if not quick or "casedup" in c.name:
+                    h = h_iter2(prop, c, facts, "dfa", n=4 if quick else 6, an=UN)
+                    if c in pf_cases:
+                        h.stubs = list(STUB_PF)
+                    hs.append(h)
+            hs.append(Harness("h_oppcase", None, "    t::opp_case();", 4, [("b", "u8")],
+                              dict(template="opp_case", replay_template="opp_case", symbolic=["byte (all 256 values)"]),
+                              functions=["util::prefilter::opposite_ascii_case"]))
             return hs
         return cases, mk
     raise KeyError(prop)
